@@ -67,9 +67,13 @@ class DataFrame(Entity, DataSet):
             row_tuple = tuple(row_list)
             new_da.append(row_tuple)
         farr = np.ascontiguousarray(new_da, dtype=dt)
+        units = self.units
         del self._h5group.group['data']
         self._h5group.create_dataset("data", (len(farr),), dt)
         self.write_direct(farr)
+        if units is not None:
+            # keep one unit entry per column (the new column has no unit)
+            self.units = list(units) + [None]
 
     def append_rows(self, data):
         """
@@ -334,6 +338,8 @@ class DataFrame(Entity, DataSet):
     @units.setter
     def units(self, units):
         units_arr = np.array(units, util.vlen_str_dtype)
+        if units_arr.shape != (len(self.column_names),):
+            raise ValueError("Need exactly one unit (or None) per column")
         for idx, unit in enumerate(units_arr):
             if unit is not None:
                 unit = util.units.sanitizer(unit)
